@@ -230,7 +230,8 @@ func runC12(c *Ctx) {
 				continue
 			}
 			// the blinding factor recomputed with circl's hash_to_field and the standard library's scalar multiplication
-			if ref := refBlind(cn, sk.X, sk.Y, bk.D, ctx); ref != nil {
+			// (from the bytes the blind key was created from, not from what CreateKey kept of them)
+			if ref := refBlind(cn, sk.X, sk.Y, new(big.Int).SetBytes(blind), ctx); ref != nil {
 				c.Direct(ref[0].Cmp(bp.X) == 0 && ref[1].Cmp(bp.Y) == 0,
 					"blinded key is not pk × hash_to_field(XMD(curve hash, \"ECDSA Key Blind\"), blind-key bytes ‖ 0x00 ‖ context)", in)
 			}
@@ -246,7 +247,12 @@ func runC12(c *Ctx) {
 			p2, _ := ecdsa.BlindPublicKeyWithContext(cv, &sk.PublicKey, bk2, ctx2)
 			p21, _ := ecdsa.BlindPublicKeyWithContext(cv, p2, bk, ctx)
 			c.Direct(p12.X.Cmp(p21.X) == 0 && p12.Y.Cmp(p21.Y) == 0, "two blindings do not commute", in)
-			// changing blind or context changes the key
+			// changing blind or context changes the key; a blind and its residue mod N are different blinds
+			if bv := new(big.Int).SetBytes(blind); bv.Cmp(N) >= 0 {
+				bkr, _ := ecdsa.CreateKey(cv, new(big.Int).Mod(bv, N).Bytes())
+				pr, _ := ecdsa.BlindPublicKeyWithContext(cv, &sk.PublicKey, bkr, ctx)
+				c.Direct(pr.X.Cmp(bp.X) != 0, "a blind and its residue modulo the group order gave the same blinded key", in)
+			}
 			c.Direct(p2.X.Cmp(bp.X) != 0, "a different blind gave the same blinded key", in)
 			pc, _ := ecdsa.BlindPublicKeyWithContext(cv, &sk.PublicKey, bk, append(append([]byte{}, ctx...), 1))
 			c.Direct(pc.X.Cmp(bp.X) != 0, "a different context gave the same blinded key", in)
